@@ -22,6 +22,8 @@ def cfg_name(cf):
 def documents(tier, seed):
     docs = []
     for s in gencheck.corpus_for(tier, seed):
+        if s.get("no_keep"):
+            continue      # holds a quarantined shape (struct literals): that shape has its own single-shape document below
         docs.append(c14docs.doc("corpus_" + s["name"], schemas.render(s), shape="schema-corpus"))
     for s in pbcheck.corpus_for(tier, seed):
         docs.append(c14docs.doc("pbcorpus_" + s["name"], pbschemas.render(s), kind="proto", shape="proto-corpus"))
